@@ -325,6 +325,13 @@ FIXED = [
     {"mode": "name", "template": "%Title{%Base()}%Ext()", "filter": "%text.Title{%Name()} != ''", "mutated": "ambiguous after qualified (other template)", "expect": 3},
     {"mode": "name", "template": "%video.Duration()_%Duration()", "mutated": "ambiguous after qualified", "expect": 3},
     {"mode": "name", "template": "%Name()", "sort": "%Width()", "filter": "%image.Width() is not None", "mutated": "ambiguous after qualified (other template)", "expect": 3},
+    # the filter accepts every file but one, whichever position that one has in the gathering order (no --sort):
+    # every verdict has to be there before the first rename
+] + [
+    {"mode": m, "template": t, "filter": "%%Name() != '%s' or undefined_name" % n, "recursive": r, "mutated": "evaluation (fails for one file only, others accepted)", "expect": 4}
+    for n in ("a.txt", "bb.txt", "c c.dat", "noext", "d.txt") for (m, t, r) in (("name", "x%Name()", False), ("path", "moved/%Name()", True))
+    if r or n != "d.txt"          # sub/d.txt is selected only with --recursive
+] + [
     # templates that consist of blanks only: the expression they render to is empty
     {"mode": "name", "template": "x%Name()", "filter": "\t", "mutated": "blank", "expect": 4},
     {"mode": "name", "template": "x%Name()", "filter": "\t \t", "mutated": "blank", "expect": 4},
